@@ -92,6 +92,9 @@ impl Portfolio {
     pub fn new(timeout_ms: u64) -> Self {
         Portfolio { timeout_ms, procs: vec![] }
     }
+    pub fn ensure_started(&mut self) {
+        self.ensure();
+    }
     fn ensure(&mut self) {
         if self.procs.is_empty() {
             use crate::solver::Which;
